@@ -6,6 +6,7 @@ CONSTANT MutShareMembers = FALSE
 CONSTANT MutNoRescope = FALSE
 CONSTANT MutStaleProcs = FALSE
 CONSTANT MutRegisterInParent = FALSE
+CONSTANT MutShareNest = FALSE
 CONSTANT MaxDepth = 99
 INVARIANT ModelOwnChain
 CHECK_DEADLOCK FALSE
